@@ -468,11 +468,10 @@ func c10Key(s *c10State) string {
 		for _, x := range d.Received[i] {
 			o := s.objs[x]
 			if o != nil {
-				k := c10ValKey(o.v)
-				if o == s.last {
-					k += "L"
-				}
-				set[k] = true
+				// by value only: the tracker compares ring entries with Equal, never by identity (whether the
+				// previous object itself sits in the slot depends on the order of the slot's list and has no
+				// consequence that its value being there does not have)
+				set[c10ValKey(o.v)] = true
 			}
 		}
 		keys := make([]string, 0, len(set))
